@@ -400,9 +400,21 @@ def c11_nested_setup(col, rng, k, jobref=None):
         probes.run_op("inner.call", lambda: inner(Sym("arg", k, "i")))
     counts["setup"] += sum(1 for e in B.snapshot() if e["kind"] == "FENTER" and e["fn"] == "ns_setup%d" % k)
 
-    def outer_fn(x):
-        r = inner(x)
-        return g_(r)
+    as_node = rng.random() < 0.4
+    if as_node:
+        # the inner DAG OBJECT is the function of a node of the outer DAG (it then runs as one node, in a worker thread): it is the
+        # same instance in every outer execution, so its setup node still runs once in total
+        inner_node = xn(inner)
+        rp["scenario"] = "dag_object_as_node_function"
+        col.counters["c11_dag_objects_used_as_node_functions"] += 1
+
+        def outer_fn(x):
+            r = inner_node(x)
+            return g_(r)
+    else:
+        def outer_fn(x):
+            r = inner(x)
+            return g_(r)
 
     outer_fn.__name__ = outer_fn.__qualname__ = "ns_outer%d" % k
     outer = dag(is_async=is_async)(outer_fn)
@@ -423,7 +435,8 @@ def c11_nested_setup(col, rng, k, jobref=None):
     col.counters["c11_nested_setup_scenarios"] += 1
     if counts["setup"] != 1:
         col.violation(pid, "setup_node_ran_more_than_once_on_one_instance", dict(
-            scenario="setup node of a DAG nested in another DAG", times=counts["setup"], inner_history=pre, outer_steps=steps, is_async=is_async), rp)
+            scenario="setup node of a DAG %s another DAG" % ("used as a node function of" if as_node else "nested in"), times=counts["setup"],
+            inner_history=pre, outer_steps=steps, is_async=is_async), rp)
     col.hashes.add(S.spec_hash({"nested_setup": pre, "steps": steps, "a": is_async}))
 
 
@@ -433,7 +446,7 @@ def job_hist11(j):
     col = Collector()
     for h in range(j["n_histories"]):
         c11_history(col, rng, h, jobref=j)
-        if h % 10 == 4:
+        if h % 5 == 4:
             c11_nested_setup(col, rng, h, jobref=j)
     c11_illegal(col, rng)
     return col.result()
